@@ -13,7 +13,7 @@ use std::path::{Path, PathBuf};
 
 use rayon::prelude::*;
 use vcommon::onnx::{self, f_bytes, f_str, f_varint};
-use vcommon::{Trace, Value, arg, arg_or, arg_usize, json, limbs, quiet_panics, read_json_lines};
+use vcommon::{Trace, Value, arg, arg_or, arg_usize, json, limbs, read_json_lines};
 
 use crate::child::{ItemResult, batch_child_main, run_batch};
 
@@ -196,7 +196,7 @@ fn load_one(root: &Path, loader: &str, location: &str, offset: u64, length: u64)
 
 /// `vh-load extdata-batch <file> <from>`
 pub fn main_batch_child() {
-    quiet_panics();
+    crate::child::terse_panics();
     let dir = tempfile::tempdir().expect("temp dir");
     let root = dir.path().canonicalize().unwrap();
     make_tree(&root);
@@ -224,7 +224,11 @@ pub fn main_extdata() {
         cases.push(serde_json::from_str(&c).expect("case json"));
     } else {
         let path = arg("--cases").expect("--cases");
+        let max_tokens = arg_usize("--max-tokens", usize::MAX);
         for c in read_json_lines(&path) {
+            if c["kind"] == "path" && c["t"].as_array().map(|a| a.len()).unwrap_or(0) > max_tokens {
+                continue;
+            }
             for loader in ["file", "mmap", "mem"] {
                 let mut c = c.clone();
                 c["loader"] = json!(loader);
@@ -262,7 +266,7 @@ pub fn main_extdata() {
     tr.emit(json!({"ev": "env", "flen": FLEN, "memid": MEM_ID, "files": files}));
     for (id, c) in cases.iter().enumerate() {
         let loc: String = c["t"].as_array().map(|a| a.iter().map(|t| t.as_str().unwrap_or("")).collect::<Vec<_>>().join("")).unwrap_or_default();
-        tr.emit(json!({"ev": "case", "id": id, "loader": c["loader"], "kind": c["kind"], "t": c["t"], "loc": loc,
+        tr.emit(json!({"ev": "case", "id": id, "build": crate::proto::build_name(), "loader": c["loader"], "kind": c["kind"], "t": c["t"], "loc": loc,
                        "off": limbs(unlimbs(&c["off"])), "len": limbs(unlimbs(&c["len"]))}));
         let r = results[id].as_ref().unwrap();
         let mut rec: Option<Value> = None;
